@@ -181,6 +181,13 @@ Theorem linear_reproduces_affine : forall fl pts c0 c1 t v,
 Proof. exact linear_reproduces_affine_l. Qed.
 Print Assumptions linear_reproduces_affine.
 
+(* with fill_value="extrapolate" the linear interpolator is defined for every x_new on its domain *)
+Theorem linear_extrapolate_defined : forall pts t,
+  (2 <= List.length pts)%nat -> strictly_increasing (map fst (sort_pts pts)) = true ->
+  exists v, linear1 FExtrapolate pts t = LVal v.
+Proof. exact linear_extrapolate_defined_l. Qed.
+Print Assumptions linear_extrapolate_defined.
+
 (* ============================================================ dilution of precision *)
 Theorem dop_pythagoras : forall M : mat,
   (0 <= M i0 i0 -> 0 <= M i1 i1 -> 0 <= M i2 i2 -> 0 <= M i3 i3 ->
